@@ -86,6 +86,15 @@ structure LangDeclIR where
   values : List (Nat × Int)
 deriving Repr, Inhabited
 
+inductive GRef where
+  | glyphid (l : List Nat)
+  | unicode (l : List Nat)
+  | urange (a b : Nat)
+  | grange (a b : Nat)
+  | ps (name : String)
+  | cls (c : Nat)
+deriving Repr, Inhabited
+
 structure ProgIR where
   numGlyphs : Nat := 0
   numReal : Nat := 0
@@ -99,6 +108,9 @@ structure ProgIR where
   features : Option (List FeatDeclIR) := none
   languages : List LangDeclIR := []
   nameStart : Option Nat := none
+  classRefs : Option (Array (List GRef)) := none
+  autoPseudo : Bool := true
+  ignoreBad : Bool := false
 deriving Inhabited
 
 open Lean in
@@ -220,8 +232,26 @@ def parseProgIR (text : String) : Except String ProgIR := do
         pure (← jNat t[0]!, ← t[1]!.getInt?)
       pure ({ code := ← jNat (← l.getObjVal? "code"), values := vals } : LangDeclIR)
   let nameStart ← jOptNat (j.getObjValD "nameStart")
+  let crj := j.getObjValD "classRefs"
+  let classRefs ← if crj.isNull then pure none else do
+    let a ← (← crj.getArr?).mapM fun c => do
+      (← c.getArr?).toList.mapM fun r => do
+        let k ← (← r.getObjVal? "k").getStr?
+        match k with
+        | "glyphid" => pure (GRef.glyphid (← (← (← r.getObjVal? "v").getArr?).toList.mapM jNat))
+        | "unicode" => pure (GRef.unicode (← (← (← r.getObjVal? "v").getArr?).toList.mapM jNat))
+        | "urange" => pure (GRef.urange (← jNat (← r.getObjVal? "a")) (← jNat (← r.getObjVal? "b")))
+        | "grange" => pure (GRef.grange (← jNat (← r.getObjVal? "a")) (← jNat (← r.getObjVal? "b")))
+        | "ps" => pure (GRef.ps (← (← r.getObjVal? "n").getStr?))
+        | "cls" => pure (GRef.cls (← jNat (← r.getObjVal? "c")))
+        | _ => throw s!"bad-input: ref kind {k}"
+    pure (some a)
+  let apj := j.getObjValD "autoPseudo"
+  let autoPseudo ← if apj.isNull then pure true else apj.getBool?
+  let ibj := j.getObjValD "ignoreBad"
+  let ignoreBad ← if ibj.isNull then pure false else ibj.getBool?
   return {
-    features, languages, nameStart,
+    features, languages, nameStart, classRefs, autoPseudo, ignoreBad,
     gattr,
     numGlyphs := ← jNat (← j.getObjVal? "numGlyphs"), numReal := ← jNat (← j.getObjVal? "numReal"),
     lb := ← jNat (← j.getObjVal? "lb"), phantom := ← jNat (← j.getObjVal? "phantom"),
